@@ -508,7 +508,7 @@ func rulePLetShape(p *Program, r *Reporter) {
 		key := fmt.Sprintf("parser.let success-return#%d", n)
 		mi, ok := ret.Results[0].(*ssa.MakeInterface)
 		good := false
-		if ok && typeShort(mi.X.Type()) == "*parser.DefineVariables" {
+		if ok && (typeShort(mi.X.Type()) == "*parser.DefineVariables" || typeShort(mi.X.Type()) == "*parser.DefineVariablesNode") {
 			if al, ok := mi.X.(*ssa.Alloc); ok {
 				for _, ref := range *al.Referrers() {
 					if fa, ok := ref.(*ssa.FieldAddr); ok && fieldName(fa) == "Variables" {
